@@ -5,6 +5,7 @@ import ErrModel.Shape
 import ErrModel.Compat
 import ErrModel.Grpc
 import ErrModel.Basic.Redact
+import ErrModel.Engine
 /-
   Observation streams printed by the driver (and, identically, by the harness
   from the real code).
@@ -133,6 +134,20 @@ def pCompat (e : Err) (refs : List (Option Err)) : String :=
     pList ["unwrap", pList ((reach e).map fun n => pList [pFound (unwrapOnce n), pFound (stdUnwrap n)])],
     pList ["as", pList (asTargets.map fun t => pList [t.1, pFound (libAs t.2 e), pFound (stdAs t.2 e)])]]
 
+/-- the formatting streams: Error(), plain %v / %+v through Formattable, redactable %v / %+v
+    and their redacted forms -/
+def pFmt (e : Err) : String :=
+  let rv := assemble [.pre (render true false e)]
+  let rpv := assemble [.pre (render true true e)]
+  pList ["fmt",
+    pList ["error", pStr (errText e)],
+    pList ["v", pStr (render false false e)],
+    pList ["pv", pStr (render false true e)],
+    pList ["rv", pStr rv],
+    pList ["rpv", pStr rpv],
+    pList ["rvred", pStr (redactS rv)],
+    pList ["rpvred", pStr (redactS rpv)]]
+
 def obsCase (e : Option Err) (refs : List (Option Err)) : String :=
   match e with
   | none => pList ["res", "(nil)", pList ["is", pList (refs.map fun r => pOB (isOpt Full none r))]]
@@ -154,6 +169,8 @@ def obsCase (e : Option Err) (refs : List (Option Err)) : String :=
       pList ["acc1", pOpt pAcc h1],
       pList ["acc2", pOpt pAcc h2],
       pList ["compat", pCompat e refs],
+      pList ["fmt0", pFmt e],
+      pList ["fmt1", pOpt pFmt h1],
       pList ["isany", pBool (isAnyB Full e refs)],
       pList ["isanyhalf", pBool (isAnyB Full e (refs.take (refs.length / 2)))]]
 
